@@ -419,6 +419,15 @@ def tool_versions():
 
 def write_evidence(prop, tier, seed, obligations, assumptions, trusted_base, functions, checker_cmds,
                    samples, wall_s, violations, extra=None, undecided=()):
+    # the same harness may serve several groups of one property: count each (obligation, harness) once,
+    # keeping the worst result
+    rank = {"failed": 0, "known-finding": 1, "undecided": 2, "discharged": 3}
+    uniq = {}
+    for o in obligations:
+        k = (o["name"], o.get("harness"), o.get("engine"))
+        if k not in uniq or rank.get(o["result"], 2) < rank.get(uniq[k]["result"], 2):
+            uniq[k] = o
+    obligations = list(uniq.values())
     # bounded stand-ins are reported but never counted as obligations discharged by proof
     bounded_obls = [o for o in obligations if o.get("completeness", "complete") != "complete"]
     obligations = [o for o in obligations if o.get("completeness", "complete") == "complete"]
@@ -451,7 +460,8 @@ def write_evidence(prop, tier, seed, obligations, assumptions, trusted_base, fun
         "coverage": cov, "assumptions": assumptions, "wall_s": round(wall_s, 2),
         "violations": violations,
     }
-    os.makedirs(os.path.join(VERIF, "evidence"), exist_ok=True)
-    with open(os.path.join(VERIF, "evidence", f"{prop}.json"), "w") as f:
+    evdir = os.environ.get("VERIF_EVIDENCE_DIR", os.path.join(VERIF, "evidence"))
+    os.makedirs(evdir, exist_ok=True)
+    with open(os.path.join(evdir, f"{prop}.json"), "w") as f:
         json.dump(ev, f, indent=1)
     return ev
